@@ -131,3 +131,8 @@ package st
 //@   requires n >= 1 && cap(keep) >= 1
 //@   ensures true
 //@   modifies nothing
+
+//@ func oracle trusted
+//@   ensures result != nil && result == nil
+//@ func [ST] BadVacuousAfterAssumedContract
+//@   ensures result == 3
